@@ -301,7 +301,8 @@ def generate(prop, rng, tier):
         extra = []
         for _ in range(rng.randint(2, 5)):
             if rng.random() < 0.55:
-                extra.append({"op": "ms_transform", "R_goal": rng.choice([-1.0, 0.0, -0.5, 0.5, -3.0])})
+                extra.append({"op": "ms_transform", "R_goal": rng.choice([-1.0, 0.0, -0.5, 0.5, -3.0]),
+                              "via": rng.choice(["held", "held", "accessor"])})
             else:
                 extra.append({"op": "ms_mutate", "how": rng.choice(["column", "index", "cell"]), "seed": rng.randint(0, 10 ** 6)})
         extra.append({"op": "ms_transform", "R_goal": rng.choice([-1.0, 0.0, -0.5])})
@@ -702,6 +703,7 @@ class MsHistory:
             sens = pd.DataFrame({"M": spec["M"], "M2": spec["M2"]}, index=pd.Index(els, name="element_id"))
         else:
             sens = pd.Series({"M": spec["M"][0], "M2": spec["M2"][0]})
+        self.sens = sens.copy()
         self.hd = MST.HaighDiagram.fkm_goodman(sens)
         self.coll = self._frame()
 
@@ -746,7 +748,13 @@ class MsHistory:
         Rg = float(st["R_goal"])
         before = snapshot(self.coll)
         try:
-            res = self.hd.transform(self.coll, Rg)
+            if st.get("via") == "accessor":
+                # the collective's own accessor (a fresh Haigh diagram per call)
+                lc = self.coll.meanstress_transform.fkm_goodman(self.sens.copy(), Rg)
+                res = pd.DataFrame({"range": 2.0 * lc.amplitude})
+                out.count("op:ms_transform_via_accessor")
+            else:
+                res = self.hd.transform(self.coll, Rg)
         except Exception as e:   # noqa
             out.violate("exception", "derived:meanstress", {"step": k, "type": type(e).__name__, "msg": str(e)[:200]})
             return False
